@@ -253,7 +253,7 @@ def parse_decimal(value, *, precision=None, scale=None, **kwargs):
             else value
         )
     )
-    if isinstance(value, (int, float)):
+    if isinstance(value, (int, float, decimal.Decimal)):
         value = str(value)
     elif isinstance(value, bytes):
         value = value.decode("utf-8")
